@@ -101,6 +101,9 @@ func buildOrCount(c *ShardCtx, text string, gen core.Gen) *core.Built {
 	}
 	if len(b.Problems) > 0 || b.Prefix == nil {
 		c.Res.Counters["emitted_code_problem"]++
+		if len(b.Problems) > 0 && len(c.Res.Counters) < 40 {
+			c.Res.Counters["problem: "+b.Problems[0]]++
+		}
 		return nil
 	}
 	return b
